@@ -210,15 +210,34 @@ where
         return Err(KeyError);
     }
     let mut a = [0u8; 64];
-    let mut i = 0;
-    while i < 64 {
-        match it.next() {
-            Some(b) => a[i] = *b.borrow(),
-            None => return Err(KeyError),
-        }
-        i += 1;
+    // written without a loop so that harnesses around `KeySetProvider::load` (whose own loop has a
+    // symbolic trip count) can use a small unwinding bound
+    macro_rules! take {
+        ($($k:expr),*) => { $( match it.next() { Some(b) => a[$k] = *b.borrow(), None => return Err(KeyError) } )* };
     }
+    take!(0, 1, 2, 3, 4, 5, 6, 7, 8, 9, 10, 11, 12, 13, 14, 15);
+    take!(16, 17, 18, 19, 20, 21, 22, 23, 24, 25, 26, 27, 28, 29, 30, 31);
+    take!(32, 33, 34, 35, 36, 37, 38, 39, 40, 41, 42, 43, 44, 45, 46, 47);
+    take!(48, 49, 50, 51, 52, 53, 54, 55, 56, 57, 58, 59, 60, 61, 62, 63);
     Ok(AesSivCmac512::new(a.into()))
+}
+
+/// `zeroize::volatile_set` (private helper behind every `Zeroize for [u8]`, i.e. behind the `Drop` of
+/// the AES-SIV key types): a per-byte volatile-write loop, ~600 symex steps per byte and a 64-trip
+/// loop in every key drop. Replaced by the equivalent non-volatile memset (bytes) / plain loop.
+pub unsafe fn zeroize_volatile_set_stub<T: Copy + Sized>(dst: *mut T, src: T, count: usize) {
+    unsafe {
+        if std::mem::size_of::<T>() == 1 {
+            let b: u8 = std::mem::transmute_copy(&src);
+            std::ptr::write_bytes(dst as *mut u8, b, count);
+        } else {
+            let mut i = 0;
+            while i < count {
+                std::ptr::write(dst.add(i), src);
+                i += 1;
+            }
+        }
+    }
 }
 
 /// zeroize's compiler barrier is inline assembly (no semantic effect; Kani cannot encode it).
@@ -239,6 +258,7 @@ macro_rules! ks_harness {
         #[kani::stub(<ntp_proto::verif::packet::crypto::AesSivCmac256 as ntp_proto::verif::packet::crypto::Cipher>::decrypt, crate::common::siv256_decrypt)]
         #[kani::stub(ntp_proto::verif::packet::crypto::AesSivCmac512::new_random, crate::common::siv512_new_random)]
         #[kani::stub(zeroize::barrier::optimization_barrier, crate::common::zeroize_barrier_stub)]
+        #[kani::stub(zeroize::volatile_set, crate::common::zeroize_volatile_set_stub)]
         #[kani::stub(std::time::SystemTime::now, crate::common::system_time_now)]
         $(#[$m])*
         fn $name() $body
@@ -303,8 +323,8 @@ pub fn eq_prefix(a: &[u8], b: &[u8], n: usize) -> bool {
     let mut eq = true;
     let mut i = 0;
     while i + 8 <= n {
-        let x = u64::from_le_bytes([a[i], a[i + 1], a[i + 2], a[i + 3], a[i + 4], a[i + 5], a[i + 6], a[i + 7]]);
-        let y = u64::from_le_bytes([b[i], b[i + 1], b[i + 2], b[i + 3], b[i + 4], b[i + 5], b[i + 6], b[i + 7]]);
+        let x = u64::from_le_bytes(*<&[u8; 8]>::try_from(&a[i..i + 8]).unwrap());
+        let y = u64::from_le_bytes(*<&[u8; 8]>::try_from(&b[i..i + 8]).unwrap());
         eq &= x == y;
         i += 8;
     }
@@ -313,6 +333,48 @@ pub fn eq_prefix(a: &[u8], b: &[u8], n: usize) -> bool {
         i += 1;
     }
     eq
+}
+
+/// Like `symbolic_keys`, but only the first 8 bytes of each key are arbitrary (pairwise different);
+/// byte `8 + i` of key `i` is 1 and the rest 0. Cheaper; the key-set code never branches on key bytes.
+#[cfg(kani)]
+pub fn sparse_keys(n: usize) -> [[u8; 64]; KEYS_N] {
+    unsafe {
+        let mut i = 0;
+        while i < n {
+            let t: [u8; 8] = kani::any();
+            let mut k = [0u8; 64];
+            k[..8].copy_from_slice(&t);
+            k[8 + i] = 1;
+            KEYS[i] = k;
+            let mut j = 0;
+            while j < i {
+                kani::assume(tag8(&KEYS[i]) != tag8(&KEYS[j]));
+                j += 1;
+            }
+            i += 1;
+        }
+        KEY_IDX = 0;
+        KEYS
+    }
+}
+
+/// `a[..64] == b[..64]`, loop-free (for harnesses that need a small unwinding bound).
+pub fn eq64(a: &[u8], b: &[u8]) -> bool {
+    if a.len() < 64 || b.len() < 64 {
+        return false;
+    }
+    fn w(s: &[u8], i: usize) -> u64 {
+        u64::from_le_bytes(*<&[u8; 8]>::try_from(&s[i..i + 8]).unwrap())
+    }
+    (w(a, 0) == w(b, 0))
+        & (w(a, 8) == w(b, 8))
+        & (w(a, 16) == w(b, 16))
+        & (w(a, 24) == w(b, 24))
+        & (w(a, 32) == w(b, 32))
+        & (w(a, 40) == w(b, 40))
+        & (w(a, 48) == w(b, 48))
+        & (w(a, 56) == w(b, 56))
 }
 
 pub fn tag8(k: &[u8; 64]) -> u64 {
